@@ -153,6 +153,10 @@ fn cases(tier: Tier) -> Vec<Case> {
             }
         }
     }
+    // very long lines (longer than 46340 px: dx^2 + dy^2 exceeds 31 bits), thin strokes only
+    for (ex, ey) in [(46341, 0), (0, -46341), (50000, 20000), (-30000, -40000), (65535, 1), (-1, 65536), (32768, 32767), (-70000, 70001)] {
+        v.push(Case { a: (-3, 7), b: (-3 + ex, 7 + ey), widths: vec![1, 2, 3] });
+    }
     // lengths around the thresholds 40 and 50 in all directions
     for l in [39, 40, 41, 42, 49, 50, 51, 52, 60] {
         for m in [0, 1, 7, 20, l - 1, l] {
@@ -169,7 +173,7 @@ fn run_part(run: &mut Run) {
     let tier = run.tier;
     run.sweep_vec(
         "lines",
-        "all lines with end points in [-8,8]^2 (thorough [-14,14]^2) x stroke widths 1..=12 (20), plus boundary-value long lines {0,+-1,+-41,+-64,+-255} (thorough also +-37,+-300,+-1000) x widths {1,2,3,5,8,16,31}, plus lengths around 40 and 50 in all octants",
+        "all lines with end points in [-8,8]^2 (thorough [-14,14]^2) x stroke widths 1..=12 (20), plus boundary-value long lines {0,+-1,+-41,+-64,+-255} (thorough also +-37,+-300,+-1000) x widths {1,2,3,5,8,16,31}, plus lengths around 40 and 50 in all octants, plus eight lines longer than 46340 px with widths 1..=3",
         || cases(tier),
         check,
     );
